@@ -84,11 +84,22 @@ func runPub() {
 	results := map[string]int{}
 	var meta []interface{}
 	for _, f := range strings.Split(*pubFamilies, ",") {
-		if f != "seq" {
+		if f != "seq" && f != "forward" {
 			continue
 		}
 		for i := 0; i < *pubN; i++ {
-			sscs, sress := runSeq(r, i+1, em)
+			var sscs []*scenario
+			var sress []runResult
+			if f == "seq" {
+				sscs, sress = runSeq(r, i+1, em)
+			} else {
+				sscs, sress = runForward(r, i+1)
+				var idx []string
+				for j := range sscs {
+					idx = append(idx, fmt.Sprint(len(runs)+j))
+				}
+				em.seqs = append(em.seqs, "["+strings.Join(idx, "; ")+"]")
+			}
 			for j := range sscs {
 				runs = append(runs, em.run(sscs[j], &sress[j]))
 				meta = append(meta, map[string]interface{}{"family": sscs[j].Family, "note": fmt.Sprintf("sequence %d post %d", i+1, j+1), "faults": sscs[j].Faults, "result": sress[j].Result, "handled": sress[j].Handled, "statuses": sress[j].Statuses, "body": sscs[j].Body, "send": sscs[j].Send, "panic": sress[j].PanicMsg, "events": len(sress[j].Trace)})
